@@ -178,6 +178,28 @@ def r3(cx):
     cx.check(bool(cps) and all(cb.in_cycle(c.bb) for c in cps), "every table in the manifest is linked/copied", "copy-not-all", cb.where())
 
 
+def _joined_literal(b, call):
+    """the string literal joined onto the checkpoint path that feeds `call`'s source argument (e.g. "wal")"""
+    for a in call.args:
+        o = origin_of_operand(b, a)
+        for j in o.calls:
+            if j.primary.split("::")[-1] == "join" and len(j.args) > 1:
+                lit = _str_literal(b, j.args[1])
+                if lit:
+                    return lit
+    return None
+
+
+def _str_literal(b, op):
+    if op[0] == "k":
+        return op[1].get("s") or op[1].get("str")
+    o = origin_of_operand(b, op)
+    for k in o.consts:
+        if k.get("s") or k.get("str"):
+            return k.get("s") or k.get("str")
+    return None
+
+
 @rule("C14", "C14.R5", "restore replaces whole directories: nothing of the discarded timeline is kept by name")
 def r5(cx):
     """File names (table ids, segment numbers, value-log file ids) identify content only within one timeline; restore
@@ -200,6 +222,27 @@ def r5(cx):
         cx.check(d in have, "restore wipes %s as a whole" % d, "restore-dir-not-wiped|%s" % d, b.where(),
                  "clear_current_state no longer removes %s entirely: files of the discarded timeline stay in place under names the restored manifest re-uses, "
                  "and reads silently return the discarded timeline's data" % d)
+    # restore may share inodes with the checkpoint (hard links) only for immutable files, i.e. tables: everything the live
+    # store appends to or rewrites in place (WAL segments, value-log files, manifest) must be byte-copied, otherwise the
+    # store writes into the checkpoint
+    rb0 = f.body("DatabaseCheckpoint::restore_from_checkpoint")
+    nlink = 0
+    for c in rb0.calls:
+        if c.bb not in rb0.live or not f.call_may_reach(c, {"std::fs::hard_link"}) or not c.args:
+            continue
+        nlink += 1
+        src = None
+        for a in c.args:
+            o = origin_of_operand(rb0, a, through_calls="all")
+            lits = {str(k.get("s", "")) for k in o.consts}
+            if any(x.primary.split("::")[-1] == "join" for x in o.calls) and "checkpoint" in " ".join(rb0.local_name(p[0]) or "" for p in o.params):
+                src = o
+                break
+        what = _joined_literal(rb0, c)
+        cx.check(what == "sstables", "restore hard-links only table files (`%s`)" % what, "restore-hardlink|%s" % (what or "?"), c.where(),
+                 "DatabaseCheckpoint::restore_from_checkpoint puts `%s` in place with a routine that may hard-link: files the live store appends to or rewrites "
+                 "(WAL segments, value log, manifest) then share their inode with the checkpoint, and commits made after the restore are written INTO the checkpoint" % what)
+    cx.floor("hard-linking copy steps in restore", nlink, 1)
     # selective deletion inside a rewound directory is the same mistake
     for c in b.calls:
         if c.bb in b.live and c.names & {"std::fs::remove_file"}:
